@@ -257,6 +257,32 @@ class Eval:
                 finally:
                     self.e.bound = saved
             return np.array(out)
+        if f == 'lam2':
+            lam = n.args[0]
+            k = int(self.ev(n.args[1]))
+            a0, a1 = [a.arg for a in lam.args.args]
+            out = np.zeros((k, k))
+            for x in range(k):
+                for y in range(k):
+                    saved = dict(self.e.bound)
+                    self.e.bound[a0], self.e.bound[a1] = x, y
+                    try:
+                        out[x, y] = self.ev(lam.body)
+                    finally:
+                        self.e.bound = saved
+            return out
+        if f == 'rounds_to':
+            import fractions
+            r, x = self.ev(n.args[0]), self.ev(n.args[1])
+            fx = fractions.Fraction(float(x))
+            fr = fractions.Fraction(float(r))
+            half = fractions.Fraction(1, 2)
+            # the float quotient may sit one ulp off an exact half: accept either neighbour when |r - x| is within 1e-9 of 1/2
+            if abs(abs(fr - fx) - half) < fractions.Fraction(1, 10 ** 9):
+                return float(r) == int(r)
+            return float(r) == int(r) and abs(fr - fx) < half
+        if f is None and isinstance(n.func, ast.Attribute) and ast.unparse(n.func) == 'np.size':
+            return int(np.size(self.ev(n.args[0])))
         if f in SPEC:
             return SPEC[f](*[self.ev(a) for a in n.args])
         raise Skip('spec function %s' % f)
